@@ -74,7 +74,7 @@ class Run:
         self.u_vectors = []  # the uniform vectors handed out (ids evaluated so far, u values)
 
 
-def call_sampler(kind, N, lls, path, opts, uniform_plan, perm=None, pool_spec=None, with_lnprior=False, seed=11):
+def call_sampler(kind, N, lls, path, opts, uniform_plan, perm=None, pool_spec=None, with_lnprior=False, seed=11, lib_dtype=None):
     """kind: 'rejection' | 'iterative'.  uniform_plan(call_index, ids_evaluated_so_far, lls_so_far) -> u array.
     perm: answer of rng.choice (full permutation of range(N)); None -> real choice must not be called
     (or identity)."""
@@ -112,8 +112,14 @@ def call_sampler(kind, N, lls, path, opts, uniform_plan, perm=None, pool_spec=No
         return u
 
     def choice_fn(a, size, replace):
-        choice_state["args"] = (int(a), int(size), bool(replace))
+        # the FIRST request for a random order gets the scripted permutation; a sampler that asks again within the same call
+        # gets another one (a real generator never repeats itself), so using a second draw as if it were the first shows
+        choice_state["n"] = choice_state.get("n", 0) + 1
         p = list(perm) if perm is not None else list(range(int(a)))
+        if choice_state["n"] > 1:
+            r = (choice_state["n"] - 1) % max(len(p), 1)
+            return (p[r:] + p[:r])[: int(size)]
+        choice_state["args"] = (int(a), int(size), bool(replace))
         return p[: int(size)]
 
     rng = seams.ScriptedGenerator(seed, uniform_fn=uniform_fn, choice_fn=choice_fn)
@@ -124,7 +130,7 @@ def call_sampler(kind, N, lls, path, opts, uniform_plan, perm=None, pool_spec=No
         prior_samples = lib_file(N, with_lnprior)
         in_memory = False
     else:
-        prior_samples = seams.stub_library(N, ln_prior=lnprior_tags(N) if with_lnprior else None)
+        prior_samples = seams.stub_library(N, ln_prior=lnprior_tags(N) if with_lnprior else None, dtype=lib_dtype)
         in_memory = path == "inmem"
     before = None
     if not isinstance(prior_samples, str):
